@@ -98,11 +98,16 @@ def engine_capture():
 
 
 def internal_errors(cap):
-    """[(exception, record)] for 'Error occurred while processing operation.' records."""
+    """Exceptions that took the engine's catch-all path: the record that follows the WARNING
+    'Error occurred while processing operation.' on logger kmip.server.engine.  (Handled
+    exceptions that handlers log with logger.exception before raising a specific KMIP error are
+    not internal errors.)"""
     out = []
     recs = cap.records
     for i, r in enumerate(recs):
-        if r.exc_info and r.exc_info[1] is not None:
+        if (r.name == "kmip.server.engine" and r.exc_info and r.exc_info[1] is not None and i > 0
+                and recs[i - 1].name == "kmip.server.engine"
+                and recs[i - 1].getMessage().startswith("Error occurred while processing operation")):
             out.append(r.exc_info[1])
     return out
 
